@@ -232,11 +232,90 @@ package protocol
 
 //@ func RequestHeader.Reset(h)
 //@   props C09
-//@   modifies *
+//@   modifies h._all, h.trailer._all
+//@   allocates
+//@   ensures h.trailer == old(h.trailer) || (old(h.trailer) == nil && fresh(h.trailer))
 //@   top-ensures isFresh(h)
 
 //@ func ResponseHeader.Reset(h)
 //@   props C09
 //@   replay-go var h ResponseHeader; h.SetHeaderLength(42); h.Reset(); if h.GetHeaderLength() != 0 { fmt.Println("VCGO-VIOLATED GetHeaderLength after Reset =", h.GetHeaderLength()) }
-//@   modifies *
+//@   modifies h._all, h.trailer._all
+//@   allocates
+//@   ensures h.trailer == old(h.trailer) || (old(h.trailer) == nil && fresh(h.trailer))
 //@   top-ensures isFresh(h)
+
+//@ extern bytebufferpool.ByteBuffer.Reset(b)
+//@   modifies b.B
+//@   ensures len(b.B) == 0
+//@ extern bytebufferpool.ByteBuffer.Cap(b) r
+//@   ensures r >= 0
+//@ extern bytebufferpool.ByteBuffer.Len(b) r
+//@   ensures r == len(b.B)
+
+//@ fresh-override URI.fullURI ignore :: recomputed on every FullURI() call before it is read
+//@ fresh-override URI.requestURI ignore :: recomputed on every RequestURI() call before it is read
+//@ fresh-override Args.buf ignore :: scratch buffer, always written before it is read
+//@ fresh-override Cookie.bufKV ignore :: scratch key/value buffer, always written before it is read
+//@ fresh-override Cookie.buf ignore :: scratch buffer, always written before it is read
+//@ fresh-override Request.w ignore :: back pointer rewritten by BodyWriter() before every use
+//@ fresh-override Response.w ignore :: back pointer rewritten by BodyWriter() before every use
+//@ fresh-override Request.maxKeepBodySize ignore :: server configuration, deliberately kept
+//@ fresh-override Response.maxKeepBodySize ignore :: server configuration, deliberately kept
+//@ fresh-override Request.body owned :: pooled body buffer kept when small, emptied in place
+//@ fresh-override Response.body owned :: pooled body buffer kept when small, emptied in place
+
+//@ func Args.Reset(a)
+//@   props C09
+//@   modifies a.args
+//@   top-ensures isFresh(a)
+
+//@ func URI.Reset(u)
+//@   props C09
+//@   modifies u._all
+//@   top-ensures isFresh(u)
+
+//@ func Cookie.Reset(c)
+//@   props C09
+//@   modifies c._all
+//@   top-ensures isFresh(c)
+
+//@ func Request.ResetBody(req)
+//@   props C09
+//@   modifies req.bodyRaw, req.multipartForm, req.multipartFormBoundary, req.multipartFiles, req.multipartFields, req.bodyStream, req.body, req.body.B
+//@   ensures req.bodyRaw == nil && req.bodyStream == nil && req.multipartForm == nil && len(req.multipartFormBoundary) == 0 && len(req.multipartFiles) == 0 && len(req.multipartFields) == 0
+//@   ensures req.body == nil || len(req.body.B) == 0
+//@   ensures req.body == nil || req.body == old(req.body)
+
+//@ func Request.Reset(req)
+//@   props C09
+//@   modifies req._all, req.Header.trailer._all, req.body.B
+//@   allocates
+//@   top-ensures isFresh(req)
+//@   ensures req.body == nil || req.body == old(req.body)
+//@   ensures req.Header.trailer == old(req.Header.trailer) || (old(req.Header.trailer) == nil && fresh(req.Header.trailer))
+
+//@ func Response.ResetBody(resp)
+//@   props C09
+//@   modifies resp.bodyRaw, resp.bodyStream, resp.body, resp.body.B
+//@   ensures resp.bodyRaw == nil && resp.bodyStream == nil
+//@   ensures resp.body == nil || len(resp.body.B) == 0
+//@   ensures resp.body == nil || resp.body == old(resp.body)
+
+//@ func Response.Reset(resp)
+//@   props C09
+//@   modifies resp._all, resp.Header.trailer._all, resp.body.B
+//@   allocates
+//@   top-ensures isFresh(resp)
+//@   ensures resp.body == nil || resp.body == old(resp.body)
+//@   ensures resp.Header.trailer == old(resp.Header.trailer) || (old(resp.Header.trailer) == nil && fresh(resp.Header.trailer))
+
+//@ func Request.ResetWithoutConn(req)
+//@   props C09
+//@   fresh-except isTLS :: connection-scoped, deliberately kept across requests on one connection
+//@   modifies req._all, req.Header.trailer._all, req.body.B
+//@   allocates
+//@   top-ensures isFresh(req)
+//@   ensures req.body == nil || req.body == old(req.body)
+//@   ensures req.Header.trailer == old(req.Header.trailer) || (old(req.Header.trailer) == nil && fresh(req.Header.trailer))
+//@   ensures req.isTLS == old(req.isTLS)
